@@ -837,12 +837,42 @@ def sm_format(ex, st, fr, self, args, kwargs):
                     pieces.append(m_str(ex, st, fr, [a], {})[0][2].t)
                 elif isinstance(a, VObj) and a.kind == "Seq":
                     pieces.append(ex.models.seq_text(st, a))
+                elif isinstance(a, (VObj, VOpaque)):
+                    pieces.append(m_str(ex, st, fr, [a], {})[0][2].t)      # some text (approximated), in its place
                 else:
                     ok = False
                     break
                 pieces.append(tm.S(post))
             if ok:
                 return [(st, "ok", VT(tm.concat(*pieces)))]
+    # a template assembled from a constant message with "{}" fields and symbolic pieces (e.g. msg + " (" + details + ")"):
+    # exact when the symbolic pieces hold no brace; a brace in one of them makes str.format fail or misplace the fields
+    pieces_t = list(self.t.args) if self.t.op == "str.++" else None
+    if pieces_t is not None and not kwargs and all(p_.sort == STR for p_ in pieces_t):
+        consts = [tm.cval(p_) for p_ in pieces_t if tm.is_const(p_)]
+        nfields = sum(c_.count("{}") for c_ in consts)
+        plain = all("{" not in c_.replace("{}", "") and "}" not in c_.replace("{}", "") for c_ in consts)
+        if plain and nfields == len(args):
+            sym = [p_ for p_ in pieces_t if not tm.is_const(p_)]
+            braces = tm.or_(*[tm.or_(tm.contains(p_, "{"), tm.contains(p_, "}")) for p_ in sym]) if sym else tm.FALSE
+            texts, s_cur = [], st
+            for a in args:
+                (s_cur, _tag, v_) = m_str(ex, s_cur, fr, [a], {})[0]
+                texts.append(v_.t)
+            out, k_ = [], 0
+            for p_ in pieces_t:
+                if not tm.is_const(p_):
+                    out.append(p_)
+                    continue
+                parts = tm.cval(p_).split("{}")
+                out.append(tm.S(parts[0]))
+                for post in parts[1:]:
+                    out += [texts[k_], tm.S(post)]
+                    k_ += 1
+            res = [(s_cur.assume(tm.not_(braces)), "ok", VT(tm.concat(*out)))]
+            if not (tm.is_const(braces) and not tm.cval(braces)):
+                res += ex.raise_(st.assume(braces), "ValueError", VT(tm.S("format field in a message part")))
+            return res
     return [(st, "ok", VT(tm.approx("fmt", STR)))]
 
 
